@@ -1,7 +1,7 @@
 /-
-  KB.Scan — model of the scanner worker loop (pkg/backend/scanner/scanner.go:389-516),
-  its compaction side effects (:522-591), partition border adjustment (:202-225) and the
-  receivers (receiver.go).
+  KB.Scan — model of the scanner worker loop (pkg/backend/scanner/scanner.go, `worker.run`),
+  its compaction side effects (`compactKey` / `compactCurrent` / `compactIfExpired`), partition border
+  adjustment (`adjustPartitionsBorders`) and the receivers (receiver.go).
 -/
 import KB.Coder
 import KB.Engine
@@ -66,37 +66,69 @@ def isEventKey (c : WCfg) (k : Bytes) : Bool :=
 def emitPrev (p : Prev) : List Act :=
   if p.rev > 0 && !isTomb p.val then [.emit p.key p.val p.rev] else []
 
-/-- `compactIfExpired`: `some acts` = expired (the worker `continue`s), `none` = not expired. -/
-def expireStep (c : WCfg) (r : Rec) : Option (List Act) :=
-  if c.supportTTL || c.timeout == 0 then none
+/-- What `compactIfExpired` (scanner.go:595-630) decides for the record under the iterator, given the event key
+the worker remembers in `liveEventRawKey` (`live`; Go starts with `nil`, and `bytes.Equal(x, nil)` holds exactly
+for the empty `x`, so `[]` is `nil`). -/
+inductive Expiry where
+  /-- `return false, nil` without touching anything: the engine has native ttl or `timeoutRevision == 0` (:599-602),
+  not a key under `eventsPrefix` (:603), a version above the timeout revision, or a version of the remembered live
+  event key (:622: `revision <= w.timeoutRevision && !bytes.Equal(rawKey, w.liveEventRawKey)` is false) -/
+  | no
+  /-- revision record whose revision is ABOVE the timeout revision (:619-621): the newest change of this Event is
+  younger than the ttl — `w.liveEventRawKey = rawKey`, then `return false, nil` -/
+  | noLive
+  /-- revision record at or below the timeout revision (:609-618): `compactCurrent`; `w.liveEventRawKey = rawKey` when
+  it returns an error; `return true, err` (the worker `continue`s) -/
+  | idx
+  /-- version at or below the timeout revision of a key that is not the remembered one (:622-625): `compactKey`;
+  `return true, …` -/
+  | ver
+  /-- `value[:8]` of a revision record shorter than 8 bytes (:608) -/
+  | panic
+  deriving Repr, DecidableEq
+
+def expiry (c : WCfg) (live : Bytes) (r : Rec) : Expiry :=
+  if c.supportTTL || c.timeout == 0 then .no
   else if isEventKey c r.key then
     if r.rev == 0 then
-      if r.val.length < 8 then some [.panic]
-      else if fromBE (r.val.take 8) ≤ c.timeout then some [.delcur r.ik r.val r.key] else none
-    else if r.rev ≤ c.timeout then some [.del r.ik r.key] else none
-  else none
+      if r.val.length < 8 then .panic
+      else if fromBE (r.val.take 8) ≤ c.timeout then .idx else .noLive
+    else if r.rev ≤ c.timeout && r.key != live then .ver else .no
+  else .no
 
-/-- One iteration of the worker loop: the actions it performs and the new `prev`. -/
+/-- `compactIfExpired` as the worker loop sees it: `some acts` = expired (the delete call it makes; the worker
+`continue`s), `none` = not expired (the ordinary rules of the loop body apply to the record). -/
+def expireStep (c : WCfg) (live : Bytes) (r : Rec) : Option (List Act) :=
+  match expiry c live r with
+  | .panic => some [.panic]
+  | .idx => some [.delcur r.ik r.val r.key]
+  | .ver => some [.del r.ik r.key]
+  | .noLive => none
+  | .no => none
+
+/-- The loop body BELOW the `compactIfExpired` call (scanner.go:476-520), i.e. one iteration for a record that is
+not expired: the actions it performs and the new `prev`. -/
 def workerStep (c : WCfg) (p : Prev) (r : Rec) : List Act × Prev :=
-  match expireStep c r with
-  | some acts => (acts, p)
-  | none =>
-    if r.rev > c.R then ([], p)
-    else
-      let a1 : List Act :=
-        if r.key != p.key then emitPrev p
-        else if c.compact && p.rev > 0 then [.del (encode p.key p.rev) p.key] else []
-      let a2 : List Act := if c.compact && isTomb r.val then [.del r.ik r.key] else []
-      if c.compact && r.rev == 0 && r.val.length == scannerRevisionValueLengthWithDeletionFlag then
-        if fromBE (r.val.take 8) > c.R then (a1 ++ a2, p)   -- `continue` without updating prev
-        else (a1 ++ a2 ++ [.delcur r.ik r.val r.key], ⟨r.key, r.rev, r.val⟩)
-      else (a1 ++ a2, ⟨r.key, r.rev, r.val⟩)
+  if r.rev > c.R then ([], p)
+  else
+    let a1 : List Act :=
+      if r.key != p.key then emitPrev p
+      else if c.compact && p.rev > 0 then [.del (encode p.key p.rev) p.key] else []
+    let a2 : List Act := if c.compact && isTomb r.val then [.del r.ik r.key] else []
+    if c.compact && r.rev == 0 && r.val.length == scannerRevisionValueLengthWithDeletionFlag then
+      if fromBE (r.val.take 8) > c.R then (a1 ++ a2, p)   -- `continue` without updating prev
+      else (a1 ++ a2 ++ [.delcur r.ik r.val r.key], ⟨r.key, r.rev, r.val⟩)
+    else (a1 ++ a2, ⟨r.key, r.rev, r.val⟩)
 
+/-- The loop of a worker whose `compactIfExpired` always answers "not expired" without remembering anything: every
+range read (`timeoutRevision` is 0 unless `compact`, scanner.go:259-262), every compaction on an engine with native
+ttl, every compaction before the first mark is older than the ttl. There the actions are a function of the records
+alone. (`passLoop_expiry_off` ties it to the general loop `passLoop` below.) -/
 def workerLoop (c : WCfg) : Prev → List Rec → List Act
   | p, [] => emitPrev p
   | p, r :: rs => (workerStep c p r).1 ++ workerLoop c (workerStep c p r).2 rs
 
-/-- All actions of one worker over the records of its partition, in order. -/
+/-- All actions of one worker over the records of its partition, in order (expiry off, see `workerLoop`). -/
 def workerActs (c : WCfg) (recs : List Rec) : List Act := workerLoop c {} recs
 
 def emitsOf : List Act → List (Bytes × Bytes × Nat)
@@ -151,6 +183,77 @@ def runDelete (mask : Nat → DelOutcome) (st : CompState) : Act → CompState
 
 def runDeletes (mask : Nat → DelOutcome) (st : CompState) (acts : List Act) : CompState :=
   acts.foldl (runDelete mask) st
+
+/-! ### the worker loop with expiry (engines without native ttl: the ttl pass rides on the compaction)
+
+With a timeout revision the actions are no longer a function of the records alone: whether the versions of an
+expired Event expire depends on the OUTCOME of the compare-and-delete of its revision record
+(`liveEventRawKey`), so the loop is modelled as it runs — record by record, every delete call executed against the
+live store before the next record is looked at. -/
+
+/-- `compactCurrent` returns an error: it made a call (the key is not the skipped one, `isSkippedRawKey` answers
+`nil`) and the call failed — the engine says so (`mask`), or the record under the iterator changed. -/
+def delcurErr (mask : Nat → DelOutcome) (st : CompState) (ik v raw : Bytes) : Bool :=
+  !(st.lastFailed.length > 0 && st.lastFailed == raw) &&
+    (mask st.calls != .ok || st.store.get ik != some v)
+
+/-- The worker loop (`worker.run`, scanner.go:415-542) with its side effects: `p` = `prevUserKey/Revision/Value`,
+`live` = `w.liveEventRawKey`, `st` = live store, `w.lastCompactFailedRawKey`, number of delete calls made.
+Answers the actions performed, in order, and the state after the last record. -/
+def passLoop (c : WCfg) (mask : Nat → DelOutcome) : Prev → Bytes → CompState → List Rec → List Act × CompState
+  | p, _, st, [] => (emitPrev p, st)
+  | p, live, st, r :: rs =>
+    match expiry c live r with
+    | .panic =>
+      let res := passLoop c mask p live st rs
+      (.panic :: res.1, res.2)
+    | .idx =>
+      -- :611-617 `err = w.compactCurrent(iter, rawKey, rev); if err != nil { w.liveEventRawKey = rawKey }; return true, err`
+      let live' := if delcurErr mask st r.ik r.val r.key then r.key else live
+      let res := passLoop c mask p live' (runDelete mask st (.delcur r.ik r.val r.key)) rs
+      (.delcur r.ik r.val r.key :: res.1, res.2)
+    | .ver =>
+      -- :622-625 `return true, w.compactKey(iter.Key(), rawKey, revision)`
+      let res := passLoop c mask p live (runDelete mask st (.del r.ik r.key)) rs
+      (.del r.ik r.key :: res.1, res.2)
+    | .noLive =>
+      -- :621 `w.liveEventRawKey = rawKey`, then the ordinary rules
+      let s := workerStep c p r
+      let res := passLoop c mask s.2 r.key (runDeletes mask st s.1) rs
+      (s.1 ++ res.1, res.2)
+    | .no =>
+      let s := workerStep c p r
+      let res := passLoop c mask s.2 live (runDeletes mask st s.1) rs
+      (s.1 ++ res.1, res.2)
+
+/-- One worker over the records of its partition (`newWorker`: nothing remembered yet). -/
+def passRun (c : WCfg) (mask : Nat → DelOutcome) (st : CompState) (recs : List Rec) : List Act × CompState :=
+  passLoop c mask {} [] { st with lastFailed := [] } recs
+
+/-! ### the ttl pass as it was before "fix: the ttl pass spares the versions of an Event whose revision record is
+not expired" (kept for the refutation `KB.C07Expire.old_ttl_pass_removes_live_version`): every record of an event key
+at or below the timeout revision expired on its own, whatever the key's revision record said and whatever became of
+the compare-and-delete of that record; the actions were a function of the records. -/
+
+def expireStepOld (c : WCfg) (r : Rec) : Option (List Act) :=
+  if c.supportTTL || c.timeout == 0 then none
+  else if isEventKey c r.key then
+    if r.rev == 0 then
+      if r.val.length < 8 then some [.panic]
+      else if fromBE (r.val.take 8) ≤ c.timeout then some [.delcur r.ik r.val r.key] else none
+    else if r.rev ≤ c.timeout then some [.del r.ik r.key] else none
+  else none
+
+def workerStepOld (c : WCfg) (p : Prev) (r : Rec) : List Act × Prev :=
+  match expireStepOld c r with
+  | some acts => (acts, p)
+  | none => workerStep c p r
+
+def workerLoopOld (c : WCfg) : Prev → List Rec → List Act
+  | p, [] => emitPrev p
+  | p, r :: rs => (workerStepOld c p r).1 ++ workerLoopOld c (workerStepOld c p r).2 rs
+
+def workerActsOld (c : WCfg) (recs : List Rec) : List Act := workerLoopOld c {} recs
 
 /-! ### partitions -/
 
